@@ -1203,33 +1203,24 @@ fn oracle(ps: &ProcessState, compact: &[u8], pretty: &[u8]) -> (Vec<(String, Str
         }
     }
     for (i, h) in j["handles"].as_array().cloned().unwrap_or_default().iter().enumerate() {
-        if !h["handle"].is_null() && !is_u32(&h["handle"]) {
-            or.fail("schema-handle-not-u32", format!("handles[{i}].handle = {} is documented <u32>", h["handle"]));
+        // documented <u64> since /repo b67afac
+        if !h["handle"].is_null() && h["handle"].as_u64().is_none() {
+            or.fail("schema-handle-not-u64", format!("handles[{i}].handle = {} is documented <u64>", h["handle"]));
         }
     }
-    match &j["soft_errors"] {
-        Value::Null => {}
-        Value::Array(a) if a.iter().all(|x| x.is_object() || x.is_null()) => {}
-        v => {
-            let t: String = v.to_string().chars().take(80).collect();
-            or.fail("schema-soft-errors-shape", format!("soft_errors = {t} is documented [ <object> ]"));
-        }
-    }
+    // soft_errors: print_json passes the public field through; that it is a list of objects is
+    // established by the processor (/repo 7c77347) and checked on the processor path (`json proc …`)
     (or.fails, Some(j))
 }
 
-/// first path at which the Lean `Conforms` is expected to object (schema order), for the states
-/// that leave the documented schema in one of the three known ways
+/// first path at which the Lean `Conforms` is expected to object (schema order): the unknown-OS
+/// spelling (known finding) and directly constructed `soft_errors` values the processor would
+/// not have passed on
 fn expected_conforms(j: &Value) -> String {
     if let Some(os) = j["system_info"]["os"].as_str() {
         let listed = ["Windows NT", "Mac OS X", "iOS", "Linux", "Solaris", "Android", "PS3", "NaCl"];
         if !listed.contains(&os) && hex_ok(&j["system_info"]["os"], 1).is_none() {
             return "10@$.system_info.os".into();
-        }
-    }
-    for (i, h) in j["handles"].as_array().cloned().unwrap_or_default().iter().enumerate() {
-        if !h["handle"].is_null() && !is_u32(&h["handle"]) {
-            return format!("10@$.handles[{i}].handle");
         }
     }
     match &j["soft_errors"] {
@@ -1260,10 +1251,44 @@ struct Run {
     pretty: Result<Vec<u8>, String>,
 }
 
+/// `json proc b<hex text>`: a synthetic dump carrying a MozSoftErrors stream with that text goes
+/// through `process_minidump`; the resulting state is then treated like every other one
+fn build_proc(items: &[Sx]) -> Option<ProcessState> {
+    use minidump_synth::{Memory, SynthMinidump, SystemInfo as SynthSystemInfo, Thread};
+    use test_assembler::{Endian, Section};
+    if items.len() != 2 {
+        return None;
+    }
+    let text = String::from_utf8(items[1].bytes()?).ok()?;
+    let context = minidump_synth::x86_context(Endian::Little, 0xabcd1234, 0x1010);
+    let stack = Memory::with_section(Section::with_endian(Endian::Little).append_repeated(0, 0x1000), 0x1000);
+    let thread = Thread::new(Endian::Little, 0x1234, &stack, &context);
+    let dump = SynthMinidump::with_endian(Endian::Little)
+        .add_thread(thread)
+        .add_system_info(SynthSystemInfo::new(Endian::Little))
+        .add(context)
+        .add_memory(stack)
+        .set_soft_errors(&text);
+    let dump = Minidump::read(dump.finish()?).ok()?;
+    let rt = tokio::runtime::Builder::new_current_thread().enable_all().build().ok()?;
+    rt.block_on(async {
+        let provider = minidump_unwind::Symbolizer::new(minidump_unwind::simple_symbol_supplier(vec![]));
+        minidump_processor::process_minidump(&dump, &provider).await.ok()
+    })
+}
+
+fn is_proc_case(items: &[Sx]) -> bool {
+    matches!(items.first(), Some(A(a)) if a == "proc")
+}
+
 fn run(case: &str) -> Option<Run> {
     let rest = case.strip_prefix("json ")?;
     let items = sx_parse(rest)?;
-    let ps = catch(|| build(&items)).ok()??;
+    let ps = if is_proc_case(&items) {
+        catch(|| build_proc(&items)).ok()??
+    } else {
+        catch(|| build(&items)).ok()??
+    };
     let compact = catch(|| {
         let mut v = Vec::new();
         ps.print_json(&mut v, false).map(|_| v).map_err(|e| e.to_string())
@@ -1802,6 +1827,30 @@ impl Engine for Json {
     }
     fn generate(&self, tier: Tier, rng: &mut Rng, emit: &mut dyn FnMut(String)) {
         directed(emit);
+        // processor path: what `process_minidump` makes of a MozSoftErrors stream
+        let texts: Vec<String> = vec![
+            "42".into(), "null".into(), "\"x\"".into(), "{}".into(), "{\"a\":1}".into(), "[]".into(), "[{}]".into(),
+            "[{\"InitErrors\":[\"StopProcessFailed\"]},{\"x\":[1,2.5,null,\"\\u0000\\\"\"]}]".into(),
+            "[1]".into(), "[{},null]".into(), "[{},[]]".into(), "[\"a\"]".into(), "[[{}]]".into(), "true".into(),
+            "not json".into(), "".into(), "[{}".into(), "-0.0".into(), "1e400".into(), " [ { } ] ".into(),
+        ];
+        for t in &texts {
+            emit(format!("json proc {}", sx_line(&[bts(t.as_bytes())])));
+        }
+        for _ in 0..(if tier == Tier::Quick { 40 } else { 400 }) {
+            let v = if rng.chance(1, 2) {
+                gen_json_value(rng, 2, true)
+            } else {
+                Value::Array((0..rng.below(4)).map(|_| {
+                    if rng.chance(4, 5) {
+                        Value::Object((0..rng.below(3)).map(|_| (gen_string(rng, true), gen_json_value(rng, 2, true))).collect())
+                    } else {
+                        gen_json_value(rng, 1, true)
+                    }
+                }).collect())
+            };
+            emit(format!("json proc {}", sx_line(&[bts(v.to_string().as_bytes())])));
+        }
         let count = if tier == Tier::Quick { 4000 } else { 60000 };
         for i in 0..count {
             let g = GenOpts { hostile: i % 4 != 0, wild: i % 5 == 0, defects: i % 7 == 0 };
@@ -1859,10 +1908,26 @@ impl Json {
                 }
             }
         }
+        let soft_ok = r.ps.soft_errors.as_ref().map_or(true, |v| {
+            v.as_array().map_or(false, |a| a.iter().all(|x| x.is_object()))
+        });
+        let from_processor = case.starts_with("json proc ");
+        if from_processor && !soft_ok {
+            let t: String = r.ps.soft_errors.as_ref().map(|v| v.to_string()).unwrap_or_default().chars().take(80).collect();
+            res.oracle.push((
+                "soft-errors-processor-passthrough".into(),
+                format!("process_minidump produced soft_errors = {t}; json-schema.md documents [ <object> ]"),
+            ));
+        }
         res.out = expected_out(&r, &orc_json);
         res.nontrivial = r.compact.is_ok()
             && (r.ps.threads.iter().any(|t| !t.frames.is_empty()) || r.ps.modules.iter().next().is_some());
         res.tags = tags_of(&r);
+        if from_processor {
+            res.tags.push(format!("processor-path:soft_errors-{}", if r.ps.soft_errors.is_some() { "kept" } else { "dropped" }));
+        } else if !soft_ok {
+            res.tags.push("direct-state-soft_errors-not-a-list-of-objects".into());
+        }
         res
     }
     fn model_request_inner(&self, case: &str) -> Option<String> {
@@ -1880,6 +1945,9 @@ impl Json {
         let Some(mut items) = case.strip_prefix("json ").and_then(sx_parse) else {
             return case.to_string();
         };
+        if is_proc_case(&items) {
+            return case.to_string();
+        }
         let render = |items: &Vec<Sx>| format!("json {}", sx_line(items));
         // generic structural shrinking: drop list elements, blank strings, zero numbers, None-ify
         let mut budget = 400;
